@@ -83,9 +83,9 @@ def run(ctx):
                        "every (k, n); non-trivial = distinct (unfolding, subset) whose causal closure is strictly larger than the subset "
                        "or which contains a conflict")
     ctx.assumptions += ["the dependency relation between events' transitions is taken as data from dispatch_depends (C39)",
-                        "get_topological_ordering is checked for validity only (its order depends on the hash order)",
-                        "maximal_subsets_iterator: compared as a set of sets with the model run on the descending-id ordering "
-                        "(the C++ ordering depends on the hash order); filter argument not exercised; maximum_subset_size = 0 "
+                        "get_topological_ordering: the model replays the search with the hash orders printed by the harness (exact comparison) + validity monitor",
+                        "maximal_subsets_iterator: exact sequence compared with the model run on the replayed constructor ordering "
+                        "(hash orders printed by the harness); filter argument not exercised; maximum_subset_size = 0 "
                         "is excluded (add_element_to_current_maximal_set xbt_asserts)"]
     ctx.ensure_simgrid(["simgrid"])
     ctx.lean_prove()
